@@ -87,14 +87,17 @@ func propCfg(prop string) genCfg {
 		base.kids = 0.3
 		base.weirdKeys = 0.3
 		base.drainW = 8
+		base.bigVals = 0.4
 	case "C07":
 		base.backings = []string{"store"}
-		base.flags = []string{"storeEach", "compactShape", "verifyEach", "dirCheck"}
+		base.flags = []string{"storeEach", "compactShape", "verifyEach", "dirCheck", "finalReopen"}
+		base.reopen = 2
 		base.concerns = []int{0, 1, 1, 2, 2}
 		base.kids = 0.25
 		base.drainW = 12
 		base.idle = 0.4
 		base.clockW = 8
+		base.bigVals = 0.6
 	case "C08":
 		base.flags = []string{"verifyEach", "storeEach", "finalVerify", "finalReopen"}
 		base.merges = 1
@@ -191,7 +194,9 @@ func genOpts(r *simrt.Rand, cfg genCfg) Opts {
 	}
 	o.Concern = pick(r, cfg.concerns)
 	if !dflt() {
-		o.CompactionPercentage = pick(r, []float64{0, 0.01, 0.3, 0.9})
+		// 100: never "too fragmented" - with small data page alignment makes
+		// every file look >90% stale, so partial compaction needs this
+		o.CompactionPercentage = pick(r, []float64{0, 0.01, 0.9, 100, 100, 100})
 	}
 	if !dflt() {
 		o.LevelMaxSegments = pick(r, []int{1, 2, 3, 4})
